@@ -124,7 +124,8 @@ type KeyValue struct {
 func DoListFunc(list []*KeyValue, match func(value []byte) bool, offset, limit int) []string {
 	l := len(list)
 	upper := offset + limit
-	if upper > l {
+	if upper > l || (limit > 0 && upper < offset) {
+		// Past the end of the list, or offset+limit overflowed.
 		upper = l
 	}
 	size := upper - offset
